@@ -51,6 +51,11 @@ def sh(cmd, cwd=None, env=None, timeout=None, inp=None):
 # Go harness (compiled INTO the repo's module with -overlay; /repo is never written)
 # ----------------------------------------------------------------------------------------------
 
+def _repo_tag():
+    """separate build outputs per source tree, so concurrent runs with different VERIF_REPO do not overwrite each other"""
+    return "" if REPO == "/repo" else "_" + hashlib.sha256(REPO.encode()).hexdigest()[:8]
+
+
 def overlay_for(prop):
     """harness/common/*.go + harness/cmd/<prop>/*.go -> /repo/cmd/verif_<prop>/ ;
     harness/cmd/<prop>/shims/<pkg path>/*.go -> /repo/<pkg path>/zz_verif_<prop>_*.go (only for that property's binary)"""
@@ -76,7 +81,7 @@ def overlay_for(prop):
                     rel = os.path.relpath(root, fx_root)
                     rep[os.path.join(REPO, rel, "zz_verif_fixture_" + fn)] = os.path.join(root, fn)
     os.makedirs(BUILD, exist_ok=True)
-    path = os.path.join(BUILD, "overlay_%s.json" % name)
+    path = os.path.join(BUILD, "overlay_%s%s.json" % (name, _repo_tag()))
     with open(path, "w") as fh:
         json.dump({"Replace": rep}, fh, indent=1)
     return path
@@ -85,7 +90,7 @@ def overlay_for(prop):
 def build_harness(prop):
     name = prop.lower()
     ov = overlay_for(prop)
-    out = os.path.join(BUILD, "bin", "verif_" + name)
+    out = os.path.join(BUILD, "bin", "verif_" + name + _repo_tag())
     os.makedirs(os.path.dirname(out), exist_ok=True)
     rc, so, se = sh(["go", "build", "-tags", GUARD, "-overlay", ov, "-o", out, "./cmd/verif_" + name],
                     cwd=REPO, env=GOENV, timeout=900)
